@@ -75,6 +75,19 @@ def run_case(case):
                     pre = True
                     cls.add("pre-dir-in-the-way")
                     continue
+                if e["pre"] == "symlink-to-unrelated":
+                    # the file's path is occupied by a symbolic link to an unrelated, shorter file elsewhere in the destination
+                    p = os.path.join(dest, rel)
+                    if os.path.lexists(p) or not data:
+                        continue
+                    os.makedirs(os.path.dirname(p), exist_ok=True)
+                    tgt = os.path.join(dest, "unrelated-target-%d.bin" % len(assigned))
+                    with open(tgt, "wb") as fd:
+                        fd.write(b"u" * (len(data) // 2))
+                    os.symlink(tgt, p)
+                    pre = True
+                    cls.add("pre-symlink-to-unrelated")
+                    continue
                 if e["pre"] == "wrong-full":
                     data = bytes(b ^ 0x2A for b in data)
                 elif e["pre"] == "sparse-full":
